@@ -11,7 +11,7 @@ import numpy as np
 from .. import boson, circmon, emumon
 from ..gen import Builder, equivalent_variant
 from .c03 import random_state
-from .common import drain_into, merge_stats, setup
+from .common import drain_into, merge_stats, setup, too_big
 
 PROPERTY = "C04"
 RULE = ("seeded random circuits (2-6 modes, 0-4 loss elements anywhere incl. loss 0 and 1, with/without "
@@ -69,7 +69,7 @@ def run(ctx):
         circmon.drain()
         u = c.U_full
         n_loss = u.shape[0] - c.n_modes
-        if n_loss > 5:
+        if n_loss > 5 or too_big(c, 13, 4):
             ctx.count("skipped_many_loss_modes")
             continue
         k = c.input_modes
